@@ -20,25 +20,39 @@
 EXTENDS Naturals, Sequences, FiniteSets, TLC
 
 Mods == {"m1", "m2", "m3"}
+\* textual units: modules, and (configuration "sub") the submodule s2 of m2
 Ns(m) == "urn:" \o m
 
 \* ------------------------------------------------------------- import maps
-\* imports are acyclic (m1 -> m2 -> m3); own prefixes and import prefixes collide on purpose
-Cfgs == {"swap", "same", "two"}
-Present(c) == IF c = "two" THEN {"m1", "m2"} ELSE Mods
+\* imports are acyclic (m1 -> m2 -> m3, m4); own prefixes and import prefixes collide on purpose.
+\* Configuration "sub": m2 includes its submodule s2.  A submodule is a textual unit of its own (RFC 6020 5.1,
+\* 7.1.5, 7.2.2): its prefixes are its OWN import statements plus the belongs-to prefix (which denotes the
+\* module it belongs to); what its module imports is not visible in it, and what it imports is not visible
+\* in its module.  s2 binds p differently from m2 (m4 / m3), imports r which m2 does not, and m2 imports t
+\* which s2 does not.
+Cfgs == {"swap", "same", "two", "sub"}
+Present(c) == IF c = "two" THEN {"m1", "m2"} ELSE IF c = "sub" THEN Mods \cup {"m4"} ELSE Mods
+SubUnits(c) == IF c = "sub" THEN {"s2"} ELSE {}
+Units(c) == Present(c) \cup SubUnits(c)
+ModOf(u) == IF u = "s2" THEN "m2" ELSE u         \* the module a unit is (part of)
+IsSub(u) == u = "s2"
+\* own prefix of a module / belongs-to prefix of a submodule
 Own(c, m) == CASE c = "swap" -> (CASE m = "m1" -> "o" [] m = "m2" -> "q" [] OTHER -> "p")
                [] c = "same" -> (CASE m = "m1" -> "p" [] m = "m2" -> "p" [] OTHER -> "q")
+               [] c = "sub"  -> (CASE m = "m1" -> "o" [] m \in {"m2", "s2"} -> "q" [] OTHER -> "p")
                [] OTHER -> "a"
 ImportsOf(c, m) ==      \* set of <<prefix, module>>
   CASE c = "swap" -> (CASE m = "m1" -> {<<"p", "m2">>, <<"q", "m3">>} [] m = "m2" -> {<<"p", "m3">>} [] OTHER -> {})
     [] c = "same" -> (CASE m = "m1" -> {<<"q", "m2">>, <<"r", "m3">>} [] m = "m2" -> {<<"q", "m3">>} [] OTHER -> {})
+    [] c = "sub"  -> (CASE m = "m1" -> {<<"p", "m2">>, <<"q", "m3">>} [] m = "m2" -> {<<"p", "m3">>, <<"t", "m4">>}
+                        [] m = "s2" -> {<<"p", "m4">>, <<"r", "m3">>} [] OTHER -> {})
     [] OTHER -> (CASE m = "m1" -> {<<"b", "m2">>} [] OTHER -> {})
-PMap(c, m) == {<<Own(c, m), m>>} \cup ImportsOf(c, m)
+PMap(c, m) == {<<Own(c, m), ModOf(m)>>} \cup ImportsOf(c, m)
 Known(c, m, p) == \E b \in PMap(c, m) : b[1] = p
 Lookup(c, m, p) == (CHOOSE b \in PMap(c, m) : b[1] = p)[2]
 ImportsMod(c, u, t) == \E b \in ImportsOf(c, u) : b[2] = t
-PrefixFor(c, u, t) == (CHOOSE b \in PMap(c, u) : b[2] = t)[1]
-AllPrefixes(c) == UNION {{b[1] : b \in PMap(c, m)} : m \in Present(c)}
+PrefixFor(c, u, t) == (CHOOSE b \in PMap(c, u) : b[2] = ModOf(t))[1]
+AllPrefixes(c) == UNION {{b[1] : b \in PMap(c, m)} : m \in Units(c)}
 \* prefixes a statement written in module m may try: none, the declared ones, one that only other
 \* modules declare, one that nobody declares
 Choices(c, m) == {""} \cup {b[1] : b \in PMap(c, m)} \cup (AllPrefixes(c) \ {b[1] : b \in PMap(c, m)}) \cup {"zz"}
@@ -66,13 +80,20 @@ Places(kind) == CASE kind = "must" -> {"direct", "grp-local", "grp-cross", "grp-
                   [] kind = "when" -> {"direct", "grp-local", "grp-cross", "grp-chain", "grp-unused", "augment", "when-uses", "when-augment"}
                   [] OTHER -> {"direct", "grp-local", "grp-cross", "grp-chain", "grp-unused", "augment", "typedef-local", "typedef-cross", "typedef-unused"}
 \* <<T, U, V>> combinations a configuration allows for a place
+\* (T, U, V are units; a grouping / typedef of unit T is reachable from unit U when U imports T's module,
+\* or when T is the submodule that U's module includes)
+Sees(c, u, t) == ModOf(u) # ModOf(t) /\ ImportsMod(c, u, ModOf(t))
+\* The TARGET PATH of an augment / deviation is not an embedded XPath expression and is not judged here.  When
+\* it is written in a submodule, only targets are generated whose prefix the submodule's module does not bind to
+\* another module (the compiler resolves the first step of such a path in the module, the rest in the submodule).
+TargetPathPlain(c, t, u) == ~IsSub(t) \/ LET p == PrefixFor(c, t, u) IN ~Known(c, ModOf(t), p) \/ Lookup(c, ModOf(t), p) = u
 Sites(c, place) ==
-  LET P == Present(c) IN
+  LET P == Units(c)  M == Present(c) IN
   CASE place \in {"direct", "grp-local", "typedef-local", "grp-unused", "typedef-unused"} -> {<<t, t, t>> : t \in P}
-    [] place \in {"grp-cross", "typedef-cross"} -> {<<x[1], x[2], x[2]>> : x \in {y \in P \X P : ImportsMod(c, y[2], y[1])}}
-    [] place = "grp-chain" -> {<<x[1], x[2], x[3]>> : x \in {y \in P \X P \X P : ImportsMod(c, y[3], y[1]) /\ ImportsMod(c, y[2], y[3])}}
-    [] place \in {"augment", "when-augment", "deviate-add"} -> {<<x[1], x[2], x[2]>> : x \in {y \in P \X P : ImportsMod(c, y[1], y[2])}}
-    [] place \in {"when-uses", "refine"} -> {<<x[1], x[1], x[2]>> : x \in {y \in P \X P : y[1] = y[2] \/ ImportsMod(c, y[1], y[2])}}   \* V = home of the grouping
+    [] place \in {"grp-cross", "typedef-cross"} -> {<<x[1], x[2], x[2]>> : x \in {y \in P \X P : Sees(c, y[2], y[1]) \/ (IsSub(y[1]) /\ y[2] = ModOf(y[1]))}}
+    [] place = "grp-chain" -> {<<x[1], x[2], x[3]>> : x \in {y \in M \X M \X M : ImportsMod(c, y[3], y[1]) /\ ImportsMod(c, y[2], y[3])}}
+    [] place \in {"augment", "when-augment", "deviate-add"} -> {<<x[1], x[2], x[2]>> : x \in {y \in P \X M : ImportsMod(c, y[1], y[2]) /\ ModOf(y[1]) # y[2] /\ TargetPathPlain(c, y[1], y[2])}}
+    [] place \in {"when-uses", "refine"} -> {<<x[1], x[1], x[2]>> : x \in {y \in P \X P : y[1] = y[2] \/ Sees(c, y[1], y[2]) \/ (IsSub(y[2]) /\ y[1] = ModOf(y[2]))}}   \* V = home of the grouping
 \* the module whose namespace an unprefixed name belongs to; "*" = not judged (RFC 6020 is silent for
 \* a typedef used from another module, for a when whose context node is an augment's target and for
 \* a must that a deviation adds to a node of another module)
@@ -124,7 +145,7 @@ UnknownPrefix(c, s) == \E i \in Slots(Expr(s)) : s.pf[i] # "" /\ ~Known(c, s.T, 
 Bad(c, s) == ~SyntaxOK(s) \/ UnknownPrefix(c, s)
 \* namespace of the i-th name test ("*" = not judged)
 NameNs(c, s, k) == IF s.pf[k.slot] # "" THEN (IF Known(c, s.T, s.pf[k.slot]) THEN Ns(Lookup(c, s.T, s.pf[k.slot])) ELSE "?")
-                   ELSE IF CurMod(s) = "*" THEN "*" ELSE Ns(CurMod(s))
+                   ELSE IF CurMod(s) = "*" THEN "*" ELSE Ns(ModOf(CurMod(s)))
 Names(c, s) == LET x == NameToks(Expr(s)) IN [i \in 1..Len(x) |-> [ns |-> NameNs(c, s, x[i]), l |-> x[i].v]]
 \* an instance: a configuration and a sequence of statements
 Verdict(I) == IF \E i \in 1..Len(I.stmts) : Bad(I.cfg, I.stmts[i]) THEN "error" ELSE "ok"
@@ -141,9 +162,24 @@ StmtsOf(c, kind, place) ==
 Kinds == {"must", "when", "path"}
 Single(c, kind, place) == {[cfg |-> c, stmts |-> <<s>>] : s \in StmtsOf(c, kind, place)}
 AllStmts(c) == UNION {UNION {StmtsOf(c, k, p) : p \in Places(k)} : k \in Kinds}
+\* ---- seeded sampling.  Every random choice is bound by a singleton set comprehension, so that it is drawn
+\* exactly once (sets are never materialised just to draw from them).
+ExprAt(kind, e) == IF e <= NAccept(kind) THEN AcceptPool(kind)[e] ELSE RejectPool(kind)[e - NAccept(kind)]
+PfGood(c, m, x) == LET sl == Slots(x)  ch == {""} \cup {b[1] : b \in PMap(c, m)} IN
+                   {pf \in [1..2 -> ch] : \A i \in 1..2 : i \notin sl => pf[i] = ""}
+\* one random statement of the kind at the place (a singleton set; empty if the configuration has no such site):
+\* good = from the accept pool with declared prefixes only; otherwise accept pool 2 : 1 reject pool, any prefix
+SampleOne(c, kind, place, good) ==
+  IF Sites(c, place) = {} THEN {}
+  ELSE UNION {UNION {{Stmt(kind, place, site, e, pf)
+                      : pf \in {RandomElement(IF good THEN PfGood(c, site[1], ExprAt(kind, e)) ELSE PfChoices(c, site[1], ExprAt(kind, e)))}}
+                     : e \in {IF good \/ RandomElement(1..3) > 1 THEN RandomElement(1..NAccept(kind))
+                              ELSE NAccept(kind) + RandomElement(1..Len(RejectPool(kind)))}}
+              : site \in {RandomElement(Sites(c, place))}}
+SampleStmts(c, kind, place, n) == UNION {SampleOne(c, kind, place, FALSE) : i \in 1..n}
+RandStmt(c, good) == UNION {UNION {SampleOne(c, k, p, good) : p \in {RandomElement({q \in Places(k) : Sites(c, q) # {}})}} : k \in {RandomElement(Kinds)}}
 \* n seeded random instances with several statements at once (at most one of them rejected, so that
 \* the statement the error must name is unique)
-GoodStmts(c) == {s \in AllStmts(c) : ~Bad(c, s)}
-Multi(c, n) == LET G == GoodStmts(c)  A == AllStmts(c) IN
-               {[cfg |-> c, stmts |-> <<RandomElement(G), RandomElement(A), RandomElement(G), RandomElement(G)>>] : i \in 1..n}
+Multi(c, n) == UNION {UNION {UNION {UNION {UNION {{[cfg |-> c, stmts |-> <<s1, s2, s3, s4>>]} : s4 \in RandStmt(c, TRUE)} : s3 \in RandStmt(c, TRUE)}
+                             : s2 \in RandStmt(c, FALSE)} : s1 \in RandStmt(c, TRUE)} : i \in 1..n}
 =============================================================================
